@@ -153,7 +153,9 @@ func init() {
 					}
 					b, isB := ci.Common().Value.(*ssa.Builtin)
 					return isB && b.Name() == "delete" && IsLoadOf(streams)(ci.Common().Args[0])
-				}, PathOpts{Fail: func(in ssa.Instruction) bool { return header != nil && in.Block() == header && in != ssa.Instruction(oc) }})
+				}, PathOpts{Fail: func(in ssa.Instruction) bool {
+					return header != nil && in.Block() == header && in != ssa.Instruction(oc)
+				}})
 				c.Check(ok, "reset-always-removes-stream", c.Pos(oc), "a stream that was reset is always deleted from a.streams before the next one is considered",
 					"a reset stream can stay registered (path reaches "+c.P.InstrPos(bad)+" without delete(a.streams, id)): a re-opened identifier is routed to the dead incarnation")
 			}
